@@ -71,6 +71,33 @@ def img_reads(name):
     return [e for e in vfs.LOG if e[0] == "read" and e[1].endswith("/" + name)]
 
 
+class fsize_limit:
+    """the volume is as full as it was when the cache write stopped: no file can grow beyond n bytes (RLIMIT_FSIZE of this worker
+    process; Python ignores SIGXFSZ, so such a write fails with EFBIG - an OSError like ENOSPC / EDQUOT)"""
+
+    def __init__(self, n):
+        self.n = n
+
+    def __enter__(self):
+        import resource
+
+        self.old = resource.getrlimit(resource.RLIMIT_FSIZE)
+        resource.setrlimit(resource.RLIMIT_FSIZE, (self.n, self.old[1]))
+
+    def __exit__(self, *exc):
+        import resource
+
+        resource.setrlimit(resource.RLIMIT_FSIZE, self.old)
+
+
+class no_limit:
+    def __enter__(self):
+        pass
+
+    def __exit__(self, *exc):
+        pass
+
+
 def execute(case):
     st = setup(case["level"])
     prod, ref, names = st["prod"], st["ref"], st["names"]
@@ -82,7 +109,7 @@ def execute(case):
     def bad(kind, cut, detail, **extra):
         sig = {"kind": kind, "loc": loc, **extra}
         if core.jkey(sig) not in {core.jkey(f["sig"]) for f in fails}:
-            fails.append({"sig": sig, "detail": f"{case['level']} {name} {loc} prefix {cut}/{len(doc)}{' + complete ' + other if case.get('pair') else ''}: {detail}", "case": {**case, "cuts": [cut], "full_steps": True}})
+            fails.append({"sig": sig, "detail": f"{case['level']} {name} {loc} prefix {cut}/{len(doc)}{' + complete ' + other if case.get('pair') else ''}{' (volume still full: files cannot grow beyond the prefix length)' if case.get('disk_full') else ''}: {detail}", "case": {**case, "cuts": [cut], "full_steps": True}})
 
     for i, cut in enumerate(case["cuts"]):
         clear(st)
@@ -93,7 +120,8 @@ def execute(case):
             plant(st, other, name, doc)
         # step 1: default open
         try:
-            t = prod.open(records_per_chunk=2)
+            with fsize_limit(cut) if case.get("disk_full") else no_limit():
+                t = prod.open(records_per_chunk=2)
             d = treesnap.diff(ref, treesnap.snapshot(t))
             out = "ok" if not d else "differs"
             if d:
@@ -260,7 +288,7 @@ def run(res, tier, seed):
         "for each image of a level 1.1 and a level 1.5 product (documents of ~10 kB / ~7 kB) and each location {user cache, adjacent}:"
         " every byte prefix 0..len through sar_image.open_image; through open_alos2 every prefix (thorough) or every 3rd structural"
         " JSON token +-1, every 32nd byte and the first/last 24 (quick; second image sparser), with the repair + cached-open steps on every 8th (quick) / 4th"
-        " (thorough); pairs torn+complete and torn+torn (both locations) at token positions; plus an 18000-line image whose index is > 5 MiB, cut at every power of two 2^12..2^22,"
+        " (thorough); pairs torn+complete and torn+torn (both locations) at token positions; default opens while no file can grow beyond the prefix length (the volume is still full; RLIMIT_FSIZE) at every 25th|5th token; plus an 18000-line image whose index is > 5 MiB, cut at every power of two 2^12..2^22,"
         " every MiB multiple and 5 MiB, in both locations (thorough: +-1 and every 64 KiB +-1, and a 6000-line image at every 4 KiB boundary +-1). A batch is non-trivial if it contains a proper prefix."
     )
     res.assumptions = ["post-crash states of one in-place write_text = byte prefixes of the document (single file, append after truncate)", "a writer still running exposes the same prefixes to a reader", "real SIGKILLs are sampling and are not used"]
@@ -284,6 +312,12 @@ def run(res, tier, seed):
                     every = 8
                 for c in chunks(sel, 60):
                     cases_full.append({"fn": "execute", "level": level, "image": image, "loc": loc, "cuts": c, "steps_every": every})
+                # the write stopped because the volume was full, and it still is when the product is opened with the defaults
+                full_sel = sorted(set(tokens[:: 5 if tier == "thorough" else 25]) | {0, 1, 2, n // 3, n // 2, n - 1})
+                for c in chunks(full_sel, 60):
+                    cases_full.append({"fn": "execute", "level": level, "image": image, "loc": loc, "cuts": c, "disk_full": True, "steps_every": every})
+                    if loc == "local":
+                        cases_full.append({"fn": "execute", "level": level, "image": image, "loc": loc, "cuts": c, "disk_full": True, "pair": "torn", "steps_every": every})
                 pair_sel = sorted(set(tokens[:: 7 if tier == "thorough" else 40]) | {0, 1, n - 1, n})
                 for c in chunks(pair_sel, 60):
                     cases_full.append({"fn": "execute", "level": level, "image": image, "loc": loc, "cuts": c, "pair": True, "steps_every": every})
